@@ -13,7 +13,8 @@ from harness import common as C
 from harness import fakempi
 
 RULE = ('OnlineVariance stream: 0-40 samples (quota for 0,1,2,3), 1-7 ranks, scalar or 1-4 element values, weights '
-        'equal / uniform / 12 decades wide / partly or wholly 1e-300-floored / rescaled by 1e+-120, split strided (rank::size) or arbitrary with forced '
+        'equal / uniform / 12 decades wide / partly or wholly 1e-300-floored / rescaled by 1e+-120, one case in six with whole-number values held as '
+        'int64 / int32 arrays, numpy integer scalars or Python ints, split strided (rank::size) or arbitrary with forced '
         'empty and one-sample ranks; optimizer stream: 2-14 posterior samples of (planet_radius, T, log H2O) on a '
         '5-layer TransmissionModel with an in-memory H2O opacity, 1-7 ranks, distinct weights, EVERY derived parameter the '
         'model offers enabled (logg, avg_T, mu, metallicity, O/H, C/O), a freshly built model in every simulated process, and '
@@ -196,10 +197,31 @@ def gen_ov_case(rng, k):
             for b in blocks:
                 rng.shuffle(b)
     pyfloat = bool(rng.random() < 0.25)
-    return dict(xs=xs, ws=ws, blocks=blocks, size=size, dim=dim, wkind=wkind, split=split, pyfloat=pyfloat)
+    c = dict(xs=xs, ws=ws, blocks=blocks, size=size, dim=dim, wkind=wkind, split=split, pyfloat=pyfloat)
+    if k % 6 == 4 and wkind != 'allfloored':
+        # the element type of what is averaged: a profile given in whole numbers reaches update() as an integer array (a
+        # T-P profile from a list of whole kelvins, a count); numpy integer scalars and Python ints for scalars
+        c['xs'] = np.rint(float(rng.choice([0.0, 40.0, 1500.0, -300.0])) + float(10 ** rng.uniform(0.5, 2.5)) *
+                          rng.standard_normal(shape))
+        c['vdtype'] = ['int64', 'int32'][(k // 6) % 2]
+    return c
 
 
-def ov_target(xs, ws, blocks, pyfloat):
+def typed(xs, vdtype):
+    """the samples in the element type the caller holds them in (None: double)"""
+    return xs if not vdtype else np.asarray(xs, float).astype(vdtype)
+
+
+def as_python(x):
+    """`pyfloat` cases hand plain Python numbers over: float for a double, int for an integer"""
+    if np.ndim(x) != 0:
+        return x
+    return int(x) if isinstance(x, (int, np.integer)) else float(x)
+
+
+def ov_target(xs, ws, blocks, pyfloat, vdtype=None):
+    xs = typed(xs, vdtype)
+
     def target(rank, size):
         from taurex.util.math import OnlineVariance
         from taurex import mpi
@@ -209,7 +231,7 @@ def ov_target(xs, ws, blocks, pyfloat):
             w = ws[i]
             if pyfloat:
                 w = float(w)
-                x = float(x) if np.ndim(x) == 0 else x
+                x = as_python(x)
             ov.update(x, w)
         local_var = ov.variance
         return dict(res=ov.parallelVariance(), count=ov.count, wcount=ov.wcount, mean=ov.mean, m2=ov.M2,
@@ -217,18 +239,19 @@ def ov_target(xs, ws, blocks, pyfloat):
     return target
 
 
-def single_process(xs, ws, order, pyfloat=False):
+def single_process(xs, ws, order, pyfloat=False, vdtype=None):
     """the reference: one process, no mpi4py importable, all samples"""
     from taurex.util.math import OnlineVariance
     import sys
     assert 'mpi4py' not in sys.modules
+    xs = typed(xs, vdtype)
     ov = OnlineVariance()
     for i in order:
         x = xs[i]
         w = ws[i]
         if pyfloat:
             w = float(w)
-            x = float(x) if np.ndim(x) == 0 else x
+            x = as_python(x)
         ov.update(x, w)
     return ov.parallelVariance()
 
@@ -243,10 +266,16 @@ def eval_ov_case(ctx, c, stream='ov'):
     blocks = [list(map(int, b)) for b in c['blocks']]
     size = len(blocks)
     pyfloat = bool(c.get('pyfloat'))
+    vdtype = c.get('vdtype') or None
     n = len(ws)
     dim = xs.ndim - 1
     cols = [xs] if dim == 0 else [xs[:, j] for j in range(xs.shape[1])]
     small = dict(xs=xs, ws=ws, blocks=blocks, pyfloat=pyfloat)
+    if vdtype:
+        small['vdtype'] = vdtype
+        if n and not np.array_equal(typed(xs, vdtype).astype(float), xs):
+            ctx.malformed_outcome('integer-typed-values-not-whole-numbers')
+            return
     cls = split_class(blocks) if n >= 2 else 'fewer-than-2-samples'
     scale = float(np.max(np.abs(xs))) if n else 1.0
     abs_ = 1e-12 * scale * scale + 1e-300
@@ -266,8 +295,10 @@ def eval_ov_case(ctx, c, stream='ov'):
     ctx.bucket('ov:weights:' + str(c.get('wkind')))
     ctx.bucket('ov:dim=%d' % dim)
     ctx.bucket('ov:n=%s' % (n if n < 4 else '4+'))
+    ctx.bucket('ov:value-type:' + ((vdtype + ('-array' if dim else '-python-int' if pyfloat else '-numpy-scalar'))
+                                   if vdtype else 'double'))
     try:
-        out = fakempi.run_ranks(size, ov_target(xs, ws, blocks, pyfloat))
+        out = fakempi.run_ranks(size, ov_target(xs, ws, blocks, pyfloat, vdtype))
     except fakempi.FakeMPIError as e:
         ctx.violation('ranks-out-of-step', 'the simulated ranks did not enter the same collectives: %s' % e, small)
         return
@@ -292,7 +323,11 @@ def eval_ov_case(ctx, c, stream='ov'):
     res = vals[0]['res']
     # -- predicate: equal to the single-process run, and to the two-pass weighted variance
     order = list(range(n))
-    ref = single_process(xs, ws, order, pyfloat)
+    try:
+        ref = single_process(xs, ws, order, pyfloat, vdtype)
+    except Exception as e:
+        ctx.violation('raises:single-process', 'the single-process variance of the samples raised %r' % (e,), small)
+        return
     if n < 2:
         if not (np.ndim(res) == 0 and res != res and np.ndim(ref) == 0 and ref != ref):
             ctx.violation('fewer-than-2-samples', 'with fewer than two samples the variance is NaN on one process; '
